@@ -516,6 +516,10 @@ func ruleBookkeepingPrefixes(w *core.World, r *core.Report) {
 	for _, s := range prefixSites {
 		el, ok := core.VariadicElems(s.Args()[0])
 		if !ok {
+			// a named table: a package-level slice that is a literal and is only read (globalSliceLiteral, r7_n3.go)
+			el, ok = globalSliceLiteral(w, s.Args()[0])
+		}
+		if !ok {
 			continue
 		}
 		has := map[string]bool{}
